@@ -1162,6 +1162,30 @@ class _DefInliner:
                 setattr(e, fld, sub.visit(val))
 
 
+def _sink_killers(block: List[ast.stmt], idx: int, v: str, inl: '_DefInliner') -> bool:
+    """`v = E` at block[idx]: a later simple statement of the block that modifies an operand of E while uses of v
+    still follow is moved behind those uses when it commutes with everything it passes (then E can replace v)."""
+    moved = False
+    j = idx + 1
+    while j < len(block):
+        K = block[j]
+        if isinstance(K, (ast.Assign, ast.AugAssign)) and inl._kills(K) and not _plain_def(K, v):
+            # last statement after K (same block) that still uses v
+            last_use = max((q for q in range(j + 1, len(block)) if _count_loads(block[q], v)), default=None)
+            if last_use is not None:
+                # K itself may use v (in its value): that use is evaluated before K's store and stays legal
+                ok = all(isinstance(block[q], (ast.Assign, ast.AugAssign)) and _commute(K, block[q])
+                         for q in range(j + 1, last_use + 1))
+                if ok:
+                    block.insert(last_use + 1, K)
+                    del block[j]
+                    _invalidate()
+                    moved = True
+                    continue
+        j += 1
+    return moved
+
+
 def _fn_params(fn: ast.FunctionDef) -> Set[str]:
     params = {a.arg for a in fn.args.args + fn.args.kwonlyargs + fn.args.posonlyargs}
     if fn.args.vararg:
@@ -1217,7 +1241,12 @@ def _inline_temps(fn: ast.FunctionDef) -> bool:
                     and s.targets[0].id not in excluded and not s.targets[0].id.startswith('N_'):
                 v = s.targets[0].id
                 inl = _DefInliner(v, s.value)
-                if inl.check(block, k, cont) and (v not in modified or inl.total == 1):
+                good = inl.check(block, k, cont) and (v not in modified or inl.total == 1)
+                if not good and inl.pure and _sink_killers(block, k, v, inl):
+                    _invalidate()
+                    inl = _DefInliner(v, s.value)
+                    good = inl.check(block, k, cont) and (v not in modified or inl.total == 1)
+                if good:
                     inl.apply()
                     del block[k]
                     if not block:
@@ -1485,23 +1514,39 @@ def _coalesce_copies(fn: ast.FunctionDef) -> bool:
         if isinstance(n, (ast.FunctionDef, ast.Lambda)) and n is not fn:
             nested_names |= {m.id for m in ast.walk(n) if isinstance(m, ast.Name)}
 
-    def find(block, in_loop):
+    def inside(node_block_owner, name) -> bool:
+        """every occurrence of `name` in the function lies inside the given loop statement's body"""
+        inner_pos = [pos[id(n)] for st_ in node_block_owner.body for n in ast.walk(st_) if isinstance(n, ast.Name) and n.id == name]
+        return len(inner_pos) == len(occ.get(name, []))
+
+    def first_is_store(loop, name) -> bool:
+        best = None
+        for st_ in loop.body:
+            for n in ast.walk(st_):
+                if isinstance(n, ast.Name) and n.id == name and (best is None or pos[id(n)] < pos[id(best)]):
+                    best = n
+        return best is not None and isinstance(best.ctx, ast.Store)
+
+    def find(block, loop):
         for k, s in enumerate(block):
             if isinstance(s, ast.Assign) and len(s.targets) == 1 and isinstance(s.targets[0], ast.Name) \
-                    and isinstance(s.value, ast.Name) and not in_loop:
+                    and isinstance(s.value, ast.Name):
                 v, w = s.targets[0].id, s.value.id
                 if v != w and w not in params and v not in nested_names and w not in nested_names:
                     p_t, p_v = pos[id(s.targets[0])], pos[id(s.value)]
                     if all(q >= p_t for q in occ.get(v, [])) and all(q <= p_v for q in occ.get(w, [])):
-                        return block, k, v, w
+                        # inside a loop both live ranges must be confined to one iteration of that loop
+                        if loop is None or (inside(loop, v) and inside(loop, w) and first_is_store(loop, w)):
+                            return block, k, v, w
             if isinstance(s, (ast.FunctionDef, ast.ClassDef)):
                 continue
             for b in _blocks_of(s):
-                r = find(b, in_loop or isinstance(s, (ast.For, ast.While)))
+                inner_loop = s if isinstance(s, (ast.For, ast.While)) and b is s.body else loop
+                r = find(b, inner_loop)
                 if r:
                     return r
         return None
-    r = find(fn.body, False)
+    r = find(fn.body, None)
     if not r:
         return False
     block, k, v, w = r
@@ -2369,3 +2414,201 @@ def normalize_module(tree: ast.Module, imported_helpers: Optional[Dict[str, ast.
     visit(tree.body)
     ast.fix_missing_locations(tree)
     return tree
+
+
+# ----------------------------------------------------------------------------------------------
+# alpha normal form: canonical names for locals (used by comparisons of two functions, on demand)
+# ----------------------------------------------------------------------------------------------
+
+class _Webs:
+    """Reaching definitions over the structured AST; definitions and uses of a local that can meet are one web."""
+
+    def __init__(self, fn: ast.FunctionDef, names: Set[str]):
+        self.fn, self.names = fn, names
+        self.parent: Dict[int, int] = {}
+        self.node_of: Dict[int, ast.Name] = {}
+        self.entry_def: Dict[str, int] = {}
+
+    def find(self, a: int) -> int:
+        while self.parent.get(a, a) != a:
+            self.parent[a] = self.parent.get(self.parent[a], self.parent[a])
+            a = self.parent[a]
+        return a
+
+    def union(self, a: int, b: int):
+        ra, rb = self.find(a), self.find(b)
+        if ra != rb:
+            self.parent[ra] = rb
+
+    def run(self):
+        state = {v: frozenset() for v in self.names}
+        self._block(self.fn.body, state)
+
+    def _uses(self, node: ast.AST, state):
+        """loads inside an expression / simple statement part (evaluated before its stores)"""
+        for n in ast.walk(node):
+            if isinstance(n, ast.Name) and n.id in self.names and isinstance(n.ctx, ast.Load):
+                self.node_of[id(n)] = n
+                self.parent.setdefault(id(n), id(n))
+                for d in state[n.id]:
+                    self.union(id(n), d)
+
+    def _defs(self, node: ast.AST, state):
+        for n in ast.walk(node):
+            if isinstance(n, ast.Name) and n.id in self.names and isinstance(n.ctx, (ast.Store, ast.Del)):
+                self.node_of[id(n)] = n
+                self.parent.setdefault(id(n), id(n))
+                state[n.id] = frozenset([id(n)])
+
+    def _merge(self, a, b):
+        return {v: a[v] | b[v] for v in self.names}
+
+    def _block(self, block, state):
+        for s in block:
+            state = self._stmt(s, state)
+        return state
+
+    def _stmt(self, s, state):
+        if isinstance(s, ast.If):
+            self._uses(s.test, state)
+            s1 = self._block(s.body, dict(state))
+            s2 = self._block(s.orelse, dict(state))
+            return self._merge(s1, s2)
+        if isinstance(s, (ast.While, ast.For)):
+            cur = dict(state)
+            for _ in range(3):
+                st = dict(cur)
+                if isinstance(s, ast.While):
+                    self._uses(s.test, st)
+                else:
+                    self._uses(s.iter, st)
+                    self._defs(s.target, st)
+                out = self._block(s.body, dict(st))
+                cur = self._merge(cur, out)
+                cur = self._merge(cur, st)
+            cur = self._block(s.orelse, cur) if s.orelse else cur
+            return cur
+        if isinstance(s, ast.Try):
+            cur = self._block(s.body, dict(state))
+            cur = self._merge(cur, state)
+            outs = [self._block(s.orelse, dict(cur))]
+            for h in s.handlers:
+                outs.append(self._block(h.body, dict(cur)))
+            m = outs[0]
+            for o in outs[1:]:
+                m = self._merge(m, o)
+            return self._block(s.finalbody, m) if s.finalbody else m
+        if isinstance(s, ast.With):
+            for it in s.items:
+                self._uses(it.context_expr, state)
+                if it.optional_vars is not None:
+                    self._defs(it.optional_vars, state)
+            return self._block(s.body, state)
+        if isinstance(s, (ast.FunctionDef, ast.ClassDef)):
+            return state
+        if isinstance(s, ast.AugAssign):
+            self._uses(s.value, state)
+            if isinstance(s.target, ast.Name) and s.target.id in self.names:
+                # read-modify-write: the new definition belongs to the web of the old value
+                n = s.target
+                self.node_of[id(n)] = n
+                self.parent.setdefault(id(n), id(n))
+                for d in state[n.id]:
+                    self.union(id(n), d)
+                state[n.id] = frozenset([id(n)])
+            else:
+                self._uses(s.target, state)
+            return state
+        if isinstance(s, ast.Assign):
+            self._uses(s.value, state)
+            for t in s.targets:
+                # loads inside targets (subscripts) first
+                for n in ast.walk(t):
+                    if isinstance(n, ast.Name) and isinstance(n.ctx, ast.Load):
+                        self._uses(n, state)
+                self._defs(t, state)
+            return state
+        # any other simple statement
+        self._uses(s, state)
+        self._defs(s, state)
+        return state
+
+
+def alpha_normalize(fn: ast.FunctionDef) -> ast.FunctionDef:
+    """A copy of the function in which every local variable web (definitions and uses that can meet) has a
+    canonical name `v<k>`, numbered in the order of first occurrence after the commuting statements have been
+    ordered by a name-blind key.  Two functions that differ only in the choice and re-use of local names get the
+    same text."""
+    fn = copy.deepcopy(fn)
+    params = _fn_params(fn)
+    skip: Set[str] = set(params)
+    for n in ast.walk(fn):
+        if isinstance(n, (ast.Global, ast.Nonlocal)):
+            skip |= set(n.names)
+        if isinstance(n, (ast.FunctionDef, ast.Lambda)) and n is not fn:
+            skip |= {m.id for m in ast.walk(n) if isinstance(m, ast.Name)}
+            if isinstance(n, ast.FunctionDef):
+                skip.add(n.name)
+        if isinstance(n, (ast.ListComp, ast.SetComp, ast.DictComp, ast.GeneratorExp)):
+            for g in n.generators:
+                skip |= {m.id for m in ast.walk(g.target) if isinstance(m, ast.Name)}
+        if isinstance(n, (ast.Import, ast.ImportFrom)):
+            skip |= {(a.asname or a.name).split('.')[0] for a in n.names}
+        if isinstance(n, ast.ExceptHandler) and n.name:
+            skip.add(n.name)
+    stored = {n.id for n in ast.walk(fn) if isinstance(n, ast.Name) and isinstance(n.ctx, (ast.Store, ast.Del))}
+    names = stored - skip
+    if not names:
+        return fn
+    # 1. webs
+    w = _Webs(fn, names)
+    w.run()
+    web_of: Dict[int, int] = {i: w.find(i) for i in w.node_of}
+    for i, n in w.node_of.items():
+        n.id = f"{n.id}\x00{web_of[i]}"          # provisional unique name per web
+    # names that were never visited (unreachable code) keep their spelling
+    # 2. name-blind ordering of commuting statements
+
+    def blind_key(st: ast.stmt) -> str:
+        c = copy.deepcopy(st)
+        for n in ast.walk(c):
+            if isinstance(n, ast.Name) and '\x00' in n.id:
+                n.id = '_'
+        return _stmt_key(c)
+
+    def order(block):
+        for st in block:
+            if isinstance(st, (ast.FunctionDef, ast.ClassDef)):
+                continue
+            for b in _blocks_of(st):
+                order(b)
+        n = len(block)
+        for _ in range(n):
+            swapped = False
+            for k in range(n - 1):
+                a, b = block[k], block[k + 1]
+                if isinstance(a, (ast.Assign, ast.AugAssign)) and isinstance(b, (ast.Assign, ast.AugAssign)) \
+                        and blind_key(b) < blind_key(a) and _commute(a, b):
+                    block[k], block[k + 1] = b, a
+                    _invalidate()
+                    swapped = True
+            if not swapped:
+                break
+    _invalidate()
+    order(fn.body)
+    # 3. canonical numbering by first occurrence (source order of the ordered tree)
+    num: Dict[str, str] = {}
+
+    def visit(node):
+        for ch in ast.iter_child_nodes(node):
+            if isinstance(ch, ast.Name) and '\x00' in ch.id:
+                if ch.id not in num:
+                    num[ch.id] = f"v{len(num) + 1}"
+            visit(ch)
+    # assignments: visit the value before the target?  No: numbering by definition order, target first
+    visit(fn)
+    for n in ast.walk(fn):
+        if isinstance(n, ast.Name) and n.id in num:
+            n.id = num[n.id]
+    _invalidate()
+    return fn
